@@ -821,8 +821,33 @@ class SymDate:
     def __repr__(self):
         return 'SymDate(%s, %s, %s)' % (self.year, self.month, self.day)
 
-    def isoformat(self):
-        raise ConcretisationLeak('SymDate.isoformat')
+    def _concrete(self):
+        """Calendar arithmetic beyond year / month / day (ISO week date, weekday, ordinal, text): pin the date to one
+        value of the current path (DART-style; days around New Year first, where the calendars disagree) and answer from
+        the real datetime.date.  Obligations on this path then speak about that date only (noted)."""
+        import datetime
+        y, m, d = self.year.z, self.month.z, self.day.z
+        for cons in ([m == 12, d >= 29], [m == 1, d <= 3], []):
+            r, mod = E._query(cons, min(E.feas_ms, 1500))
+            if r == 'sat':
+                vals = [mod.eval(v, model_completion=True).as_long() for v in (y, m, d)]
+                try:
+                    real = datetime.date(*vals)
+                except ValueError:
+                    continue
+                E._add(z3.And(y == vals[0], m == vals[1], d == vals[2]))
+                E.model = None
+                E.notes.append('date-concretised')
+                return real
+        raise ConcretisationLeak('SymDate: no concrete date on this path')
+
+    def isocalendar(self): return self._concrete().isocalendar()
+    def weekday(self): return self._concrete().weekday()
+    def isoweekday(self): return self._concrete().isoweekday()
+    def toordinal(self): return self._concrete().toordinal()
+    def timetuple(self): return self._concrete().timetuple()
+    def isoformat(self): return self._concrete().isoformat()
+    def strftime(self, fmt): return self._concrete().strftime(fmt)
 
 
 class SymLog10:
